@@ -545,6 +545,9 @@ class BaseParser:
                     if k in _data and _data[k] != v and not context.options.ignore_alias_conflicts:
                         # the same spelling in different letter cases with different values
                         field = self.get_field(k)
+                        if field and field.is_no_input(v, options=context.options):
+                            # a no-input field takes no value: its spellings cannot conflict
+                            continue
                         context.handle_error(exc.AliasConflictError(
                             item=(field.attname if as_attname else field.name) if field else k, value=v))
                         continue
